@@ -31,7 +31,7 @@ def shards(tier, seed):
         cells = [("auto", None, 400), ("cross", 0.2, 400), ("cross", 0.7, 400)]
         R = 16
     else:
-        n_sh, n, budget, nmax = 12, 600, 450, 60000
+        n_sh, n, budget, nmax = 12, 3000, 450, 60000
         cells = [(m, g, nn) for (m, g) in (("auto", None), ("cross", 0.2), ("cross", 0.7))
                  for nn in (400, 1600)]
         R = 40
